@@ -276,6 +276,10 @@ impl VHDLFormatter<'_> {
             buffer.push_whitespace();
             // select
             self.format_token_id(selected.expression.span.end_token + 1, buffer);
+            if selected.is_matching {
+                // ?
+                self.format_token_id(selected.expression.span.end_token + 2, buffer);
+            }
             buffer.push_whitespace();
         }
     }
@@ -912,6 +916,11 @@ with x(0) + 1 select foo(0) <= bar(1, 2) when 0 | 1, def when others;",
             "\
 with x(0) + 1 select foo(0) <= transport bar(1, 2) after 2 ns when 0 | 1, def when others;",
         );
+    }
+
+    #[test]
+    fn format_matching_selected_assignments() {
+        check_statement("with x select? foo <= bar when \"1-\", def when others;");
     }
 
     #[test]
